@@ -1095,9 +1095,20 @@ func (c *c3) caseByteArray(cc *ast.CaseClause) c3arms {
 		c.fail(i3, "TagByteArray: the last else must return an error")
 	}
 	pre, cl := stepsPrefix(st.steps, "bs")
+	// destination [n]T (Model/C03.v): the element kind first, then `vt.Len() != length`, then the in-place loop
+	var aarms []string
+	for _, e := range cs[0].List {
+		k := kindName(c, e)
+		body := fmt.Sprintf("Ret (YArr (map (fun b => %s) bs))", stores[k])
+		if !inRange {
+			body = "Crash 9"
+		}
+		aarms = append(aarms, fmt.Sprintf("| %s => if negb (Z.of_N (lenN c) =? n)%%Z then Fail eType else %s", c3Gty[k], body))
+	}
 	return c3arms{
-		any: pre + "Ret (ABytes bs)" + strings.Repeat(")", cl),
-		ty:  pre + "match t with " + strings.Join(arms, " ") + " | _ => Fail eType end" + strings.Repeat(")", cl),
+		any:     pre + "Ret (ABytes bs)" + strings.Repeat(")", cl),
+		ty:      pre + "match t with " + strings.Join(arms, " ") + " | _ => Fail eType end" + strings.Repeat(")", cl),
+		stArray: pre + "match t with " + strings.Join(aarms, " ") + " | _ => Fail eType end" + strings.Repeat(")", cl),
 	}
 }
 
@@ -1167,7 +1178,17 @@ func (c *c3) caseIntArray(cc *ast.CaseClause) c3arms {
 		arms = append(arms, fmt.Sprintf("| GSl %s => %s", c3Gty[k], tail(v)))
 	}
 	pre, _ := stepsPrefix(st.steps, "")
-	return c3arms{any: pre + tail("AInts l"), ty: pre + "match t with " + strings.Join(arms, " ") + " | _ => Fail eType end"}
+	var aarms []string
+	for _, k := range kinds {
+		v := "YArr (map XInt l)"
+		if strings.HasPrefix(k, "KUint") {
+			v = "YArr (map (fun v => XInt (Z.of_N (u32 v))) l)"
+		}
+		aarms = append(aarms, fmt.Sprintf("| %s => %s", c3Gty[k], tail(v)))
+	}
+	// destination [n]T: `vt.Kind() == reflect.Array && vt.Len() != int(aryLen)` comes before the element kind test
+	return c3arms{any: pre + tail("AInts l"), ty: pre + "match t with " + strings.Join(arms, " ") + " | _ => Fail eType end",
+		stArray: pre + "if negb (Z.of_N (lenN c) =? n)%Z then Fail eType else match t with " + strings.Join(aarms, " ") + " | _ => Fail eType end"}
 }
 
 func (c *c3) caseLongArray(cc *ast.CaseClause) c3arms {
@@ -1199,7 +1220,7 @@ func (c *c3) caseLongArray(cc *ast.CaseClause) c3arms {
 	if def == nil || len(def.Body) != 1 || !strings.HasPrefix(c.src(def.Body[0]), "return errors.New(") {
 		c.fail(sw, "TagLongArray: the default must return an error")
 	}
-	var arms []string
+	var arms, aarms []string
 	anyArm := ""
 	for _, kc := range cs {
 		if len(kc.List) != 1 || len(kc.Body) != 3 {
@@ -1232,6 +1253,7 @@ func (c *c3) caseLongArray(cc *ast.CaseClause) c3arms {
 			return fmt.Sprintf("l <- rep f %s rd_i64 [] ;; Ret (%s)", count, ret)
 		}
 		arms = append(arms, fmt.Sprintf("| GSl %s => %s", c3Gty[k], tail(v)))
+		aarms = append(aarms, fmt.Sprintf("| %s => %s", c3Gty[k], tail(strings.Replace(v, "XSlice", "YArr", 1))))
 		if k == "KInt64" { // the interface destination gets []int64
 			anyArm = tail("ALongs l")
 		}
@@ -1240,7 +1262,8 @@ func (c *c3) caseLongArray(cc *ast.CaseClause) c3arms {
 		c.fail(sw, "TagLongArray: no reflect.Int64 clause (the interface destination is []int64)")
 	}
 	pre, _ := stepsPrefix(st.steps, "")
-	return c3arms{any: pre + anyArm, ty: pre + "match t with " + strings.Join(arms, " ") + " | _ => Fail eType end"}
+	return c3arms{any: pre + anyArm, ty: pre + "match t with " + strings.Join(arms, " ") + " | _ => Fail eType end",
+		stArray: pre + "if negb (Z.of_N (lenN c) =? n)%Z then Fail eType else match t with " + strings.Join(aarms, " ") + " | _ => Fail eType end"}
 }
 
 func (c *c3) caseList(cc *ast.CaseClause) c3arms {
@@ -1554,6 +1577,11 @@ func (c *c3) genUnmarshal(usw *ast.SwitchStmt) {
 	fmt.Fprintf(&c.out, "(* TagCompound into a struct *)\nDefinition gen_st_struct (f : nat) (dep : N) (fs : list (list N * sty)) (cur : sval) : dec sval :=\n    %s.\n", sc)
 	fmt.Fprintf(&c.out, "(* TagCompound into a map[string]any *)\nDefinition gen_st_map (f : nat) (dep : N) (cur : sval) : dec sval :=\n    %s.\n", mc)
 	fmt.Fprintf(&c.out, "(* TagList into []T, T a struct / pointer / array / RawMessage *)\nDefinition gen_st_list (f : nat) (dep : N) (t : sty) : dec sval :=\n    %s.\n", la.stList)
+	for _, x := range []struct{ n, tag string }{{"bytes", "TagByteArray"}, {"int", "TagIntArray"}, {"long", "TagLongArray"}} {
+		defer func(n, body string) {
+			fmt.Fprintf(&c.out, "(* %s into an array holding c *)\nDefinition gen_st_array_%s (f : nat) (dep : N) (t : gty) (c : list tval) : dec sval :=\n    %s.\n", "Tag"+n, n, body)
+		}(x.n, arms[x.tag].stArray)
+	}
 	fmt.Fprintf(&c.out, "(* TagList into an array holding c *)\nDefinition gen_st_array (f : nat) (dep : N) (t : gty) (c : list tval) : dec sval :=\n    %s.\nEnd St.\n\n", la.stArray)
 }
 
@@ -1781,6 +1809,305 @@ func (c *c3) dynReaders(f *ast.File) {
 	}
 }
 
+// ---- 7. phase 5: StringifiedMessage.encode as a reader (gen_text), the allocation rules, indirect() ----
+
+// statements of encode that only produce text
+func (c *c3) isText(s ast.Stmt) bool {
+	t := c.src(s)
+	if strings.Contains(t, "d.") || strings.Contains(t, "return") || strings.Contains(t, "break") || strings.Contains(t, "m.encode") {
+		return false
+	}
+	for _, p := range []string{"sb.WriteString(", "writeEscapeStr(sb, ", "first := true", "f := ", "if first {"} {
+		if strings.HasPrefix(t, p) {
+			return true
+		}
+	}
+	return false
+}
+
+func (c *c3) dropText(l []ast.Stmt) []ast.Stmt {
+	var r []ast.Stmt
+	for _, s := range l {
+		if !c.isText(s) {
+			r = append(r, s)
+		}
+	}
+	return r
+}
+
+// for i := 0 | int32(0); i < bound | int(bound); i++
+func (c *c3) loopCount2(fs *ast.ForStmt, bound string) string {
+	if fs.Init == nil || fs.Cond == nil || fs.Post == nil || c.src(fs.Post) != "i++" || (c.src(fs.Init) != "i := 0" && c.src(fs.Init) != "i := int32(0)") {
+		c.fail(fs, "expected a counted loop over %s", bound)
+	}
+	b, ok := fs.Cond.(*ast.BinaryExpr)
+	if !ok || c.src(b.X) != "i" || (c.src(b.Y) != bound && c.src(b.Y) != "int("+bound+")") {
+		c.fail(fs, "expected the loop condition `i < %s`", bound)
+	}
+	switch b.Op {
+	case token.LSS:
+		return "(Z.to_N n)"
+	case token.LEQ:
+		return "(Z.to_N n + 1)"
+	}
+	c.fail(fs, "loop condition operator not handled")
+	return ""
+}
+
+func (c *c3) genEncode(f *ast.File) {
+	fd := c.fn(f, "*StringifiedMessage", "encode")
+	if len(fd.Body.List) != 2 || c.src(fd.Body.List[1]) != "return nil" {
+		c.fail(fd, "encode: expected `switch tagType {..}; return nil`")
+	}
+	sw := c.tagSwitch(fd)
+	cs, def := clauses(sw)
+	if def == nil || len(def.Body) != 1 || !strings.HasPrefix(c.src(def.Body[0]), "return fmt.Errorf(") {
+		c.fail(sw, "encode: the default case must return an error")
+	}
+	rd := map[string]string{"d.r.ReadByte()": "rd_u8", "d.readString()": "gen_readString", "d.readInt16()": "rd_i16", "d.readInt32()": "rd_i32", "d.readInt64()": "rd_i64"}
+	c.out.WriteString("(* StringifiedMessage.encode: which bytes the binary -> SNBT converter consumes and when it fails (the text is C04's) *)\nFixpoint gen_text (fuel : nat) (dep : N) (id : N) : dec unit :=\n  match fuel with\n  | O => NoFuel\n  | S f =>\n")
+	for i, cc := range cs {
+		if len(cc.List) != 1 {
+			c.fail(cc, "encode: one tag per case")
+		}
+		b := c.dropText(cc.Body)
+		var body string
+		if names, call, ok := c.callAssign(b[0]); ok && len(b) == 2 && len(names) == 2 && names[1] == "err" && c.src(b[1]) == "return err" {
+			r, ok := rd[call]
+			if !ok {
+				c.fail(b[0], "encode: unknown read %s", call)
+			}
+			body = "_ <- " + r + " ;; Ret tt"
+		} else {
+			tmp := &ast.CaseClause{List: cc.List, Body: b}
+			st := c.steps(tmp, map[string]bool{"d.readInt32()": true}, map[string]bool{"d.r.ReadByte()": true}, false)
+			pre, _ := stepsPrefix(st.steps, "")
+			if len(st.rest) != 1 {
+				c.fail(cc, "encode: expected one loop after the opening statements")
+			}
+			fs, ok := st.rest[0].(*ast.ForStmt)
+			if !ok {
+				c.fail(st.rest[0], "encode: expected a loop")
+			}
+			lb := c.dropText(fs.Body.List)
+			if fs.Init == nil && fs.Cond == nil { // compound
+				if strings.Join(st.steps, ",") != "StEnter" || len(lb) != 5 {
+					c.fail(fs, "encode: compound loop shape")
+				}
+				c.want(lb[0], "tt, tn, err := d.readTag()")
+				if !c.isErrReturn(lb[1]) {
+					c.fail(lb[1], "encode: expected the error check after readTag")
+				}
+				endIf, ok := lb[2].(*ast.IfStmt)
+				if !ok || c.src(endIf.Cond) != "tt == TagEnd" || len(endIf.Body.List) == 0 || c.src(endIf.Body.List[len(endIf.Body.List)-1]) != "break" {
+					c.fail(lb[2], "encode: expected `if tt == TagEnd { ..; break }` before the value is converted")
+				}
+				c.want(lb[3], "err = m.encode(d, sb, tt)")
+				if !c.isErrReturn(lb[4]) {
+					c.fail(lb[4], "encode: expected the error check after the recursive call")
+				}
+				body = pre + "comp_loop f gen_readTag (gen_text f (dep - 1)) (fun _ _ a => a) tt"
+			} else {
+				count := c.loopCount2(fs, st.count)
+				var elem string
+				switch {
+				case len(lb) == 1 && st.et != "" && c.src(lb[0]) == "if err := m.encode(d, sb, "+st.et+"); err != nil { return err }":
+					elem = "(gen_text f (dep - 1) et)"
+				case len(lb) == 2 && c.isErrReturn(lb[1]):
+					names, call, ok := c.callAssign(lb[0])
+					r, known := rd[call]
+					if !ok || !known || len(names) != 2 || names[1] != "err" {
+						c.fail(lb[0], "encode: unknown element read")
+					}
+					elem = r
+				default:
+					c.fail(fs, "encode: unknown loop body")
+				}
+				body = pre + "_ <- rep f " + count + " " + elem + " [] ;; Ret tt"
+			}
+		}
+		kw := "      else if "
+		if i == 0 {
+			kw = "      if "
+		}
+		fmt.Fprintf(&c.out, "%sid =? Z.to_N %s then %s\n", kw, tagConst(c, cc.List[0]), body)
+	}
+	c.out.WriteString("      else Fail eUnknown\n  end.\n\n")
+}
+
+// integer expressions of the allocation helpers over Z
+func (c *c3) aexpr(e ast.Expr, env map[string]string) string {
+	if v, ok := env[c.src(e)]; ok {
+		return v
+	}
+	switch x := e.(type) {
+	case *ast.ParenExpr:
+		return c.aexpr(x.X, env)
+	case *ast.BasicLit:
+		if v, err := strconv.ParseInt(x.Value, 0, 64); err == nil {
+			return fmt.Sprintf("%d", v)
+		}
+	case *ast.Ident:
+		if x.Name == "maxPrealloc" {
+			return "nbt_maxPrealloc"
+		}
+	case *ast.BinaryExpr:
+		if x.Op == token.SHL {
+			a, e1 := strconv.ParseInt(c.src(x.X), 0, 64)
+			b, e2 := strconv.ParseInt(c.src(x.Y), 0, 64)
+			if e1 == nil && e2 == nil && b < 62 {
+				return fmt.Sprintf("%d", a<<uint(b))
+			}
+		}
+		if x.Op == token.SUB || x.Op == token.ADD {
+			op := map[token.Token]string{token.SUB: "-", token.ADD: "+"}[x.Op]
+			return "(" + c.aexpr(x.X, env) + " " + op + " " + c.aexpr(x.Y, env) + ")"
+		}
+	case *ast.CallExpr:
+		fn := c.src(x.Fun)
+		if (fn == "min" || fn == "max") && len(x.Args) == 2 {
+			return "(Z." + fn + " " + c.aexpr(x.Args[0], env) + " " + c.aexpr(x.Args[1], env) + ")"
+		}
+	}
+	c.fail(e, "allocation rule: expression %s not handled", c.src(e))
+	return ""
+}
+
+func (c *c3) genAlloc(dec, dyn *ast.File) {
+	// makeSlice
+	fd := c.fn(dec, "", "makeSlice")
+	if len(fd.Body.List) != 1 {
+		c.fail(fd, "makeSlice: one return expected")
+	}
+	call, ok := fd.Body.List[0].(*ast.ReturnStmt).Results[0].(*ast.CallExpr)
+	if !ok || c.src(call.Fun) != "reflect.MakeSlice" || len(call.Args) != 3 || c.src(call.Args[0]) != "t" || c.src(call.Args[1]) != c.src(call.Args[2]) {
+		c.fail(fd, "makeSlice: expected `return reflect.MakeSlice(t, E, E)`")
+	}
+	fmt.Fprintf(&c.out, "(* makeSlice(t, n): elements allocated at once *)\nDefinition gen_makeSlice_len (n : Z) : Z := %s%%Z.\n", c.aexpr(call.Args[1], map[string]string{"n": "n"}))
+	// growSlice
+	fd = c.fn(dec, "", "growSlice")
+	b := fd.Body.List
+	if len(b) != 2 {
+		c.fail(fd, "growSlice: expected k := ..; return reflect.AppendSlice(..)")
+	}
+	as, ok := b[0].(*ast.AssignStmt)
+	if !ok || c.src(as.Lhs[0]) != "k" {
+		c.fail(b[0], "growSlice: expected `k := ..`")
+	}
+	c.want(b[1], "return reflect.AppendSlice(s, reflect.MakeSlice(s.Type(), k, k))")
+	fmt.Fprintf(&c.out, "(* growSlice(s, n) with len = s.Len(): the new length *)\nDefinition gen_growSlice_len (len n : Z) : Z := (len + %s)%%Z.\n", c.aexpr(as.Rhs[0], map[string]string{"n": "n", "s.Len()": "len"}))
+	// readBytes
+	fd = c.fn(dec, "", "readBytes")
+	b = fd.Body.List
+	if len(b) != 2 {
+		c.fail(fd, "readBytes: expected buf := make(..); for ..")
+	}
+	as, ok = b[0].(*ast.AssignStmt)
+	mk, ok2 := as.Rhs[0].(*ast.CallExpr)
+	if !ok || !ok2 || c.src(as.Lhs[0]) != "buf" || c.src(mk.Fun) != "make" || c.src(mk.Args[0]) != "[]byte" || len(mk.Args) != 2 {
+		c.fail(b[0], "readBytes: expected `buf := make([]byte, E)`")
+	}
+	first := c.aexpr(mk.Args[1], map[string]string{"n": "n"})
+	fs, ok := b[1].(*ast.ForStmt)
+	if !ok || c.src(fs.Init) != "read := 0" || fs.Cond != nil || fs.Post != nil || len(fs.Body.List) != 3 {
+		c.fail(b[1], "readBytes: expected `for read := 0; ; { read the tail; if done return; grow }`")
+	}
+	l := fs.Body.List
+	c.want(l[0], "if _, err := io.ReadFull(r, buf[read:]); err != nil { if err == io.EOF && read > 0 { err = io.ErrUnexpectedEOF } return nil, err }")
+	c.want(l[1], "if read = len(buf); read == n { return buf, nil }")
+	gs, ok := l[2].(*ast.AssignStmt)
+	if !ok || c.src(gs.Lhs[0]) != "buf" {
+		c.fail(l[2], "readBytes: expected `buf = append(buf, make([]byte, E)...)`")
+	}
+	ap, ok := gs.Rhs[0].(*ast.CallExpr)
+	if !ok || c.src(ap.Fun) != "append" || len(ap.Args) != 2 || c.src(ap.Args[0]) != "buf" || !ap.Ellipsis.IsValid() {
+		c.fail(l[2], "readBytes: expected `buf = append(buf, make([]byte, E)...)`")
+	}
+	mk2, ok := ap.Args[1].(*ast.CallExpr)
+	if !ok || c.src(mk2.Fun) != "make" || len(mk2.Args) != 2 || c.src(mk2.Args[0]) != "[]byte" {
+		c.fail(l[2], "readBytes: expected `make([]byte, E)` as the appended slice")
+	}
+	fmt.Fprintf(&c.out, "(* readBytes(r, n): the first buffer, and the new length once `read` bytes (the whole buffer) have been read *)\nDefinition gen_readBytes_first (n : Z) : Z := %s%%Z.\nDefinition gen_readBytes_grow (read n : Z) : Z := (read + %s)%%Z.\n",
+		first, c.aexpr(mk2.Args[1], map[string]string{"n": "n", "read": "read"}))
+	// dynbt appendN
+	fd = c.fn(dyn, "", "appendN")
+	b = fd.Body.List
+	if len(b) != 2 || c.src(b[1]) != "return buf, nil" {
+		c.fail(fd, "appendN: expected the loop and `return buf, nil`")
+	}
+	fs, ok = b[0].(*ast.ForStmt)
+	if !ok || c.src(fs.Init) != "first := true" || c.src(fs.Cond) != "n > 0" || c.src(fs.Post) != "first = false" || len(fs.Body.List) != 5 {
+		c.fail(b[0], "appendN: loop shape")
+	}
+	l = fs.Body.List
+	c.want(l[0], "start := len(buf)")
+	st, ok := l[1].(*ast.AssignStmt)
+	if !ok || c.src(st.Lhs[0]) != "step" {
+		c.fail(l[1], "appendN: expected `step := ..`")
+	}
+	c.want(l[2], "buf = append(buf, make([]byte, step)...)")
+	c.want(l[3], "if _, err := io.ReadFull(r, buf[start:]); err != nil { if err == io.EOF && !first { err = io.ErrUnexpectedEOF } return buf[:start], err }")
+	c.want(l[4], "n -= step")
+	fmt.Fprintf(&c.out, "(* dynbt appendN: bytes appended in one step when the buffer holds start bytes and n are still to come *)\nDefinition gen_appendN_step (start n : Z) : Z := %s%%Z.\n\n",
+		c.aexpr(st.Rhs[0], map[string]string{"n": "n", "start": "start"}))
+}
+
+func (c *c3) genIndirect(f *ast.File) {
+	fd := c.fn(f, "", "indirect")
+	b := fd.Body.List
+	if len(b) != 6 {
+		c.fail(fd, "indirect: expected v0, haveAddr, assign, the address test, the loop, the return")
+	}
+	c.want(b[0], "v0 := v")
+	c.want(b[1], "haveAddr := false")
+	c.want(b[2], "var assign func()")
+	c.want(b[3], `if v.Kind() != reflect.Ptr && v.Type().Name() != "" && v.CanAddr() { haveAddr = true v = v.Addr() }`)
+	c.want(b[5], "return nil, nil, v, assign")
+	fs, ok := b[4].(*ast.ForStmt)
+	if !ok || fs.Init != nil || fs.Cond != nil || fs.Post != nil {
+		c.fail(b[4], "indirect: expected `for {`")
+	}
+	steps := []string{"IkAddrNamed"}
+	for _, s := range fs.Body.List {
+		t := c.src(s)
+		switch {
+		case t == "if v.Kind() == reflect.Interface && !v.IsNil() { e := v.Elem() if e.Kind() == reflect.Ptr && !e.IsNil() && (!decodingNull || e.Elem().Kind() == reflect.Ptr) { haveAddr = false v = e continue } else if v.CanSet() { e = reflect.New(e.Type()) cv := v assign = func() { cv.Set(e.Elem()) } v = e continue } }":
+			steps = append(steps, "IkIfaceDescend")
+		case t == "if v.Kind() != reflect.Ptr { break }":
+			steps = append(steps, "IkBreakNonPtr")
+		case t == "if decodingNull && v.CanSet() { break }":
+			steps = append(steps, "IkBreakNull")
+		case t == "if v.Elem().Kind() == reflect.Interface && v.Elem().Elem() == v { v = v.Elem() break }":
+			steps = append(steps, "IkSelfPtr")
+		case t == "if v.IsNil() { v.Set(reflect.New(v.Type().Elem())) }":
+			steps = append(steps, "IkAllocNil")
+		case t == "if haveAddr { v = v0 haveAddr = false } else { v = v.Elem() }":
+			steps = append(steps, "IkElem")
+		case strings.HasPrefix(t, "if v.Type().NumMethod() > 0 && v.CanInterface() {"):
+			ifs := s.(*ast.IfStmt)
+			l := ifs.Body.List
+			if len(l) < 1 || c.src(l[0]) != "i := v.Interface()" {
+				c.fail(s, "indirect: the method test must start with `i := v.Interface()`")
+			}
+			var order []string
+			for _, m := range l[1:] {
+				switch c.src(m) {
+				case "if u, ok := i.(Unmarshaler); ok { return u, nil, reflect.Value{}, assign }":
+					order = append(order, "MUnmarshaler")
+				case "if u, ok := i.(encoding.TextUnmarshaler); ok { return nil, u, v, assign }":
+					order = append(order, "MTextUnmarshaler")
+				default:
+					c.fail(m, "indirect: unknown type assertion %s", c.src(m))
+				}
+			}
+			steps = append(steps, "IkMethods ["+strings.Join(order, "; ")+"]")
+		default:
+			c.fail(s, "indirect: statement not handled: %s", t)
+		}
+	}
+	fmt.Fprintf(&c.out, "(* indirect(): the address test before the loop, then the statements of the loop body in source order *)\nDefinition indirect_steps : list istep := [%s].\n\n", strings.Join(steps, "; "))
+}
+
 // emitC03 writes coq/Gen/C03gen.v
 func emitC03(repo, outdir string) {
 	c := &c3{fset: token.NewFileSet()}
@@ -1831,6 +2158,9 @@ func emitC03(repo, outdir string) {
 	c.genUnmarshal(usw)
 	c.dynReaders(dyn)
 	c.genDyn(dyn)
+	c.genEncode(snbt)
+	c.genAlloc(dec, dyn)
+	c.genIndirect(dec)
 
 	for _, n := range []string{"enter", "readTag", "readString", "readInt8", "readInt16", "readInt32", "readInt64", "rawRead"} {
 		c.skel("skel_"+n, c.fn(dec, "*Decoder", n))
